@@ -1,6 +1,7 @@
 package rules
 
 import (
+	"os"
 	"fmt"
 	"go/token"
 	"go/types"
@@ -376,9 +377,9 @@ func checkSniffReplay(c *engine.Ctx, rule string) {
 							continue
 						}
 					}
-					if strings.HasSuffix(name, "getHostFromHTTPConnect") {
+					if f == c.P.Fn("pkg/util/tcpmux.HTTPConnectTCPMuxer.getHostFromHTTPConnect") {
 						// non-passthrough CONNECT: the request is answered by the muxer, its bytes are not replayed
-						if v, k := st.Truth(func(x ssa.Value) bool { f, _ := engine.LoadedField(x); return f != nil && f.Name() == "passthrough" }); k && !v {
+						if v, k := st.Truth(func(x ssa.Value) bool { f, _ := engine.LoadedField(x); return f != nil && f == c.P.Field("pkg/util/tcpmux", "HTTPConnectTCPMuxer", "passthrough") }); k && !v {
 							continue
 						}
 					}
@@ -480,22 +481,32 @@ func checkProxyProtocol(c *engine.Ctx, rule string) {
 	}
 	n := 0
 	var writeTo, join *ssa.Call
-	engine.ForEachInstr(f, func(in ssa.Instruction) {
-		if call, ok := in.(*ssa.Call); ok {
-			if o := engine.CalleeObj(call); o != nil {
-				if o.Name() == "WriteTo" && o.Pkg() != nil && strings.Contains(o.Pkg().Path(), "proxyproto") {
-					writeTo = call
+	// the work-connection handler may have been split into steps: the step that writes the header and joins, and the step
+	// that builds the header, are found by what they do (among the functions of the package)
+	entry := f
+	for _, g := range allFuncsOfPkg(entry.Pkg) {
+		var w, j *ssa.Call
+		engine.ForEachInstr(g, func(in ssa.Instruction) {
+			if call, ok := in.(*ssa.Call); ok {
+				if o := engine.CalleeObj(call); o != nil {
+					if o.Name() == "WriteTo" && o.Pkg() != nil && strings.Contains(o.Pkg().Path(), "proxyproto") {
+						w = call
+					}
+				}
+				if calleeIs(call, "golib/io", "Join") {
+					j = call
 				}
 			}
-			if calleeIs(call, "golib/io", "Join") {
-				join = call
-			}
+		})
+		if w != nil && j != nil && (g == entry || fnReachesFn(entry, g)) {
+			writeTo, join, f = w, j, g
 		}
-	})
+	}
 	if writeTo == nil || join == nil {
-		c.Undecide("client/proxy.BaseProxy.HandleTCPWorkConnection>header", f.Pos(), "header write or join not found")
+		c.Undecide("client/proxy.BaseProxy.HandleTCPWorkConnection>header", entry.Pos(), "header write or join not found")
 		return
 	}
+	hdrRecv := engine.CallArgs(writeTo)[0]
 	n++
 	c.AllPaths("client/proxy.BaseProxy.HandleTCPWorkConnection>header-before-join", engine.PathCheck{Fn: f, Sink: engine.Is(join),
 		Event: func(in ssa.Instruction) string {
@@ -506,7 +517,12 @@ func checkProxyProtocol(c *engine.Ctx, rule string) {
 		},
 		Pred: func(st *engine.PathState) string {
 			hdrF := "ProxyProtocolHeader"
-			isNil, k := st.IsNil(func(v ssa.Value) bool { f, _ := engine.LoadedField(v); return f != nil && f.Name() == hdrF })
+			isNil, k := st.IsNil(func(v ssa.Value) bool {
+				if f, _ := engine.LoadedField(v); f != nil && f.Name() == hdrF {
+					return true
+				}
+				return engine.SameExpr(v, hdrRecv) // the header as this step received it (a parameter after a split)
+			})
 			if !k {
 				return "the join is reached without testing whether a proxy-protocol header is pending"
 			}
@@ -522,15 +538,20 @@ func checkProxyProtocol(c *engine.Ctx, rule string) {
 		}}, "header written (successfully) before the join")
 	// the header's addresses and the version gate
 	var hdrAlloc *ssa.Alloc
-	engine.ForEachInstr(f, func(in ssa.Instruction) {
-		if al, ok := in.(*ssa.Alloc); ok && al.Heap {
-			if nn := engine.NamedOf(al.Type()); nn != nil && nn.Obj().Name() == "Header" && nn.Obj().Pkg() != nil && strings.Contains(nn.Obj().Pkg().Path(), "proxyproto") {
-				hdrAlloc = al
-			}
+	for _, g := range allFuncsOfPkg(entry.Pkg) {
+		if !(g == entry || fnReachesFn(entry, g)) {
+			continue
 		}
-	})
+		engine.ForEachInstr(g, func(in ssa.Instruction) {
+			if al, ok := in.(*ssa.Alloc); ok && al.Heap {
+				if nn := engine.NamedOf(al.Type()); nn != nil && nn.Obj().Name() == "Header" && nn.Obj().Pkg() != nil && strings.Contains(nn.Obj().Pkg().Path(), "proxyproto") {
+					hdrAlloc, f = al, g
+				}
+			}
+		})
+	}
 	if hdrAlloc == nil {
-		c.Undecide("client/proxy.BaseProxy.HandleTCPWorkConnection>header-fields", f.Pos(), "header literal not found")
+		c.Undecide("client/proxy.BaseProxy.HandleTCPWorkConnection>header-fields", entry.Pos(), "header literal not found")
 		return
 	}
 	n++
@@ -632,6 +653,9 @@ func checkJoinClosure(c *engine.Ctx, rule string) {
 				return closeOfParam("workConn")(in)
 			},
 			Pred: func(st *engine.PathState) string {
+				if os.Getenv("FRPSA_DEBUG_C01") != "" {
+					fmt.Fprintf(os.Stderr, "C01R7 exit %s events=%v\n", c.P.Pos(posOf(st.Sink)), st.Events)
+				}
 				if !(st.HasEvent("join") || st.HasEvent("plugin") || st.HasEvent("close")) {
 					return "an exit of HandleTCPWorkConnection neither joins, hands off nor closes the work connection: the user's connection on the server side hangs"
 				}
